@@ -58,6 +58,13 @@ def judge(ctx, q, data, oob, info):
     key = astx.dump_fields(q)
     hostile = any(f.startswith("selector:") for f in info.get("features", [])) or info.get("directed")
     witness = {"query": astx.unparse(q), "oob": oob, "info": info}
+    if info.get("naming") == "arglike" and not ctx.threads:
+        # what a fresh process (a back end receiving a query a client already simplified) starts from: the generated names and the
+        # query's own arg_N binders are in the same range
+        import func_adl.ast.function_simplifier as _fs
+
+        _fs.argument_var_counter = 0
+        ctx.count("cases-with-generated-name-counter-at-zero")
     try:
         # (every third case: ONE simplifier object is used for query after query, as a back end that keeps its transformer does)
         import threading as _thr
